@@ -3,6 +3,7 @@
 set -e
 ROOT="$(cd "$(dirname "$0")/.." && pwd)"
 python3 "$ROOT/tools/translate.py"
+python3 "$ROOT/tools/translate_imp.py"
 cd "$ROOT/coq"
 coq_makefile -f _CoqProject -o Makefile > /dev/null
 timeout 3000 make -j16
